@@ -216,6 +216,163 @@ def dump(stmts):
     return [ast.dump(s) for s in stmts]
 
 
+SAFE_CONVERTERS = ("debug.str", "debug.repr", "qcore.safe_str", "qcore.safe_repr", "safe_str", "safe_repr", "len", "id", "type",
+                   "core_inspection.get_full_name", "qcore.inspection.get_full_name", "utime")
+
+
+def safe_operand(f, e, depth=0):
+    """Can formatting this operand with %s/%r run user code (a __str__/__repr__ that may raise)?  Safe: constants, results of the
+    containing converters (debug.str/debug.repr = qcore's safe_str/safe_repr), len()/id()/type(), C-typed numeric or str fields,
+    text built from safe parts, and locals all of whose values are safe."""
+    if depth > 4:
+        return False
+    if isinstance(e, ast.Constant) or isinstance(e, ast.JoinedStr) and all(isinstance(v, ast.Constant) or safe_operand(f, v.value, depth + 1) for v in e.values):
+        return True
+    if isinstance(e, ast.Call):
+        nm = q.call_name(e) or ""
+        if nm in SAFE_CONVERTERS:
+            return True
+        if nm in ("int", "float", "bool"):
+            return True
+        return False
+    if isinstance(e, ast.IfExp):
+        return safe_operand(f, e.body, depth + 1) and safe_operand(f, e.orelse, depth + 1)
+    if isinstance(e, ast.BinOp) and isinstance(e.op, ast.Mod) and isinstance(e.left, ast.Constant) and isinstance(e.left.value, str):
+        ops = e.right.elts if isinstance(e.right, ast.Tuple) else [e.right]
+        return all(safe_operand(f, o, depth + 1) for o in ops)
+    if isinstance(e, ast.BinOp) and isinstance(e.op, (ast.Add, ast.Sub, ast.Mult)):
+        return safe_operand(f, e.left, depth + 1) and safe_operand(f, e.right, depth + 1)
+    if isinstance(e, ast.Attribute) and q.src(e.value) == "self" and f.cls is not None:
+        t_, _o = f.cls.field_type(e.attr)
+        return t_ in C_INT_TYPES or t_ in C_FLOAT_TYPES or t_ in ("str", "bint")
+    if isinstance(e, ast.Name):
+        vals = common.assigned_values(f.node, e.id)
+        return bool(vals) and all(k == "expr" and safe_operand(f, v, depth + 1) for k, v in vals)
+    return False
+
+
+# methods a user overrides and that diagnostics must therefore treat like any other user code
+USER_HOOKS = {"get_priority": "BatchBase.get_priority(): the documented override point for flush order"}
+DIAG_ENTRY_NAMES = ("dump", "dump_perf_stats", "collect_perf_stats", "to_str", "try_time_based_dump")
+
+
+def diag_conversions(R, ro, rule):
+    """The functions the option-guarded code calls directly (dump*, the profiler's naming helpers) run in the middle of the
+    scheduler loop and of completion paths.  Whatever they turn into text goes through the containing converters or sits in a
+    try that covers Exception, and so does every call of a user hook: a user __repr__/__str__/get_priority() that raises must
+    not fail a computation only because a dump or profiling option is on."""
+    import re
+    from ..cfg import ExcHierarchy
+    hier = ExcHierarchy(R.repo)
+    n_sites = 0
+    fns = []
+    for c in R.repo.all_classes():
+        if c.module.name in ("mock_", "debug", "_debug"):
+            continue
+        for nm in DIAG_ENTRY_NAMES:
+            if nm in c.methods:
+                fns.append(c.methods[nm])
+
+    def protected(f, node):
+        for t in kit.enclosing_try_handlers(node):
+            if any(kit.handler_covers(h, "Exception", hier) and not kit.handler_reraises(h) for h in t.handlers):
+                return True
+        return False
+    for f in sorted(fns, key=lambda x: x.qualname):
+        for node in q.scope_nodes(f.node):
+            unsafe = []
+            if isinstance(node, ast.BinOp) and isinstance(node.op, ast.Mod) and isinstance(node.left, ast.Constant) and isinstance(node.left.value, str):
+                convs = [c_ for c_ in re.findall(r"%[-#0 +]*\d*(?:\.\d+)?([a-zA-Z%])", node.left.value) if c_ != "%"]
+                ops = node.right.elts if isinstance(node.right, ast.Tuple) else [node.right]
+                for i, o in enumerate(ops):
+                    cv = convs[i] if i < len(convs) else "s"
+                    if cv not in ("s", "r", "a"):
+                        continue
+                    if isinstance(o, ast.Call) and q.call_name(o) in ("str", "repr"):
+                        continue        # reported at the call itself
+                    unsafe.append((o, "`%%%s` of `%s`" % (cv, q.src(o)[:40]), safe_operand(f, o)))
+            elif isinstance(node, ast.Call) and q.call_name(node) in ("str", "repr", "format") and node.args:
+                unsafe.append((node, "`%s`" % q.src(node)[:40], safe_operand(f, node.args[0])))
+            elif isinstance(node, ast.FormattedValue):
+                unsafe.append((node, "f-string field `%s`" % q.src(node.value)[:40], safe_operand(f, node.value)))
+            elif isinstance(node, ast.Call) and q.attr_call(node)[1] in USER_HOOKS:
+                unsafe.append((node, "the user hook `%s`" % q.src(node)[:40], False))
+            for o, what, safe in unsafe:
+                R.check(safe or protected(f, o), rule, "%s:%s" % (f.qualname, q.src(o)[:40]), R.site(f, o),
+                        "%s in %s cannot run user code, or is contained (try/except Exception)" % (what, f.name),
+                        "%s.%s evaluates %s outside a containing converter (debug.str / debug.repr) and outside a try that covers Exception: user code "
+                        "that raises there (a __repr__/__str__ of an argument, value or subclass; an overridden hook asked in a state the scheduler never "
+                        "asks it in) fails the computation only when the dump / profiling option is on"
+                        % (f.cls.name if f.cls else f.module.name, f.name, what))
+    R.require_min(rule, 6)
+
+
+def dump_bounded(R, ro, rule):
+    """A dump that follows the dependency links of a task is recursive over a structure whose depth the library does not bound
+    (chains of awaiting tasks far deeper than any stack): the recursive call is reachable only below an explicit depth limit on
+    the indentation parameter, with an early return above it."""
+    n = 0
+    for cls in (ro.AsyncTask, ro.FutureBase, ro.BatchBase, ro.BatchItemBase, ro.TS):
+        f = cls.methods.get("dump")
+        if f is None:
+            continue
+        params = q.param_names(f.node)
+        cfg = cfg_of(f)
+        for nd, c in kit.call_sites(f, lambda c: q.attr_call(c)[1] == "dump" and q.dotted(q.attr_call(c)[0]) not in ("self", "debug")):
+            recv = q.attr_call(c)[0]
+            # only links that can lead back to an object of this kind: elements of the dependency list
+            loop = [a for a in q.ancestors(c) if isinstance(a, ast.For)]
+            if not loop or "_dependencies" not in q.src(loop[0].iter):
+                continue
+            n += 1
+            ind = params[1] if len(params) > 1 else None
+
+            def below_limit(x, ind=ind):
+                if x.kind != "test":
+                    return None
+                k, s_, pos = q.atom_test(x.ast)
+                if k == "lt" and isinstance(s_, tuple) and ind in s_:
+                    # `indent > LIMIT` is normalised to lt(LIMIT, indent): the recursion sits on its false edge;  `indent < LIMIT`: true edge
+                    if s_[1] == ind:
+                        return "F" if pos else "T"
+                    return "T" if pos else "F"
+                return None
+            p = kit.path_avoiding_guard(cfg, [nd], below_limit, N, dead_ok=True) if ind else ["no indentation parameter"]
+            guards = kit.guard_edges_exist(cfg, below_limit) if ind else []
+            R.check(p is None and bool(guards), rule, "%s:%s" % (f.qualname, q.src(c)[:40]), R.site(f, c),
+                    "the recursive `%s` is reached only below a depth limit on `%s`" % (q.src(c)[:40], ind),
+                    "%s.dump follows the dependency links recursively (`%s`) with no depth limit: with DUMP_SCHEDULER_STATE / the pre-error dump on, "
+                    "a deep chain of waiting tasks overflows the (C) stack - a computation that succeeds with the option off crashes with it on"
+                    % (cls.name, q.src(c)[:40]), cfg.fmt_path(p) if isinstance(p, list) and p and not isinstance(p[0], str) else None)
+    R.require_min(rule, 1)
+
+
+def perf_record_ready(R, ro, rule):
+    """dump_perf_stats() files the task's perf_stats record whenever the scheduler's profiling arm runs; the record is filled by
+    collect_perf_stats() under a test of the same option made elsewhere (at completion).  The two tests are separate reads of a
+    process-wide option, so the record must be usable whichever way they come out: every value the field is given is a dict."""
+    at = ro.AsyncTask
+    dps = at.methods.get("dump_perf_stats")
+    R.need(dps is not None, "anchor vanished: AsyncTask.dump_perf_stats")
+    subs = [n for n in q.scope_nodes(dps.node) if isinstance(n, ast.Subscript) and q.src(n.value).startswith("self.") and isinstance(n.ctx, ast.Store)]
+    fields = sorted(set(q.src(n.value)[5:] for n in subs))
+    if not fields:
+        R.ok(rule, R.site(dps), "dump_perf_stats does not write into a record held in a field")
+        return
+    for fld in fields:
+        for m in at.methods.values():
+            for n in q.scope_nodes(m.node):
+                if isinstance(n, ast.Assign) and any(q.src(t) == "self." + fld for t in n.targets):
+                    v = n.value
+                    okv = isinstance(v, (ast.Dict, ast.DictComp)) or (isinstance(v, ast.Call) and q.call_name(v) in ("dict", "collections.OrderedDict", "OrderedDict"))
+                    R.check(okv, rule, "%s:%s" % (m.qualname, fld), R.site(m, n),
+                            "self.%s is given a dict in %s" % (fld, m.name),
+                            "%s sets self.%s = %s, but dump_perf_stats() stores into it whenever the scheduler's profiling test is true; that test and the one "
+                            "that fills the record are separate reads of the option (`is True` vs truthiness; the option switched during the task's last "
+                            "step): TypeError escapes from the scheduler only with profiling on" % (m.qualname, fld, q.src(v)[:30]))
+    R.require_min(rule, 1)
+
+
 def run(R):
     R.extra["explanation"] = EXPLANATION
     ro = Roles(R)
@@ -360,11 +517,7 @@ def run(R):
             ops = c.args[0].right
             for e in (ops.elts if isinstance(ops, ast.Tuple) else [ops]):
                 n_fmt += 1
-                safe = isinstance(e, ast.Constant) or (isinstance(e, ast.Call) and (q.call_name(e) or "") in ("debug.str", "debug.repr", "len", "str", "repr", "int") and
-                                                        ((q.call_name(e) or "").startswith("debug.") or (q.call_name(e) == "len")))
-                if not safe and isinstance(e, ast.Attribute) and q.src(e.value) == "self" and f.cls is not None:
-                    t_, _o = f.cls.field_type(e.attr)
-                    safe = t_ in C_INT_TYPES or t_ in C_FLOAT_TYPES or t_ in ("str", "bint")
+                safe = safe_operand(f, e)
                 R.check(safe, "C20.DIAG-PURE", "%s:fmt:%s" % (f.qualname, q.src(e)[:30]), R.site(f, c),
                         "`%s` is interpolated safely" % q.src(e)[:40],
                         "the diagnostic line in %s interpolates `%s` directly: an object whose __str__/__repr__ raises makes the computation fail only when "
@@ -376,6 +529,9 @@ def run(R):
     from .c18 import diag_closure, diag_purity
     roots, allm = diag_closure(R)
     diag_purity(R, ro, allm, "C20.DIAG-PURE")
+    diag_conversions(R, ro, "C20.DIAG-SAFE")
+    dump_bounded(R, ro, "C20.DUMP-BOUNDED")
+    perf_record_ready(R, ro, "C20.PERF-RECORD")
     # diagnostic callees defined in the repository are themselves diagnostic-only
     for mq in ("async_task.AsyncTask.collect_perf_stats", "async_task.AsyncTask.dump_perf_stats", "batching.BatchBase.dump_perf_stats", "async_task.AsyncTask.to_str", "batching.BatchItemBase.to_str"):
         f = repo.fn(mq)
